@@ -1,4 +1,5 @@
 import NaijaVerif.Model.Analysis
+import NaijaVerif.Lemmas.AnalysisCheck
 import NaijaVerif.Model.CfgCount
 import NaijaVerif.Gen.Caps
 import NaijaVerif.Driver.AstIO
@@ -102,6 +103,10 @@ def answer (line : String) : String :=
       match (AstIO.pBlock.run astToks), factsTok.bind (fun t => readFacts (t.drop 6).toString) with
       | some (root, []), some facts =>
           if !wf root facts then malformed "wf" else
+          -- hypotheses of the C03 theorems, checked on every case: the body-reachable set is closed and
+          -- the facts' ownership / callees cover the annotated AST
+          if !(mkCtx root facts).brClosed then malformed "brclosed" else
+          if !C03.ownOkB root facts then malformed "own" else
           let limit := match CfgCount.countProgram root facts with
             | some counts => (Limits.firstExceeded Gen.Caps.defaults counts).map (fun (l : Limits.Limit) => l.metric.name)
             | none => some "uncountable"
@@ -115,6 +120,21 @@ def answer (line : String) : String :=
       | none, _ => malformed "ast"
       | some _, none => malformed "facts"
       | some (_, _ :: _), _ => malformed "ast-trailing"
+  | "cover" :: _ :: rest =>
+      -- model-only statistic: how much of the model's plan the proved theorem `c03_partial_checked` covers
+      let astToks := (rest.takeWhile (fun w => !w.startsWith "facts=")).map
+        (fun w => if w.startsWith "ast=" then (w.drop 4).toString else w)
+      let factsTok := rest.find? (·.startsWith "facts=")
+      match (AstIO.pBlock.run astToks), factsTok.bind (fun t => readFacts (t.drop 6).toString) with
+      | some (root, []), some facts =>
+          if !wf root facts then "cover malformed" else
+          let plan := planModel root facts
+          let (p', ok) := C03.coveredPlan root facts plan
+          let total := (sortDedup plan.stmts).length + plan.fns.length
+          let proved := if ok then (sortDedup p'.stmts).length + p'.fns.length else 0
+          let unr := (sortDedup (unreachable root)).length
+          s!"cover total={total} proved={proved} unreach={unr} fns={plan.fns.length} ok={if ok then 1 else 0}"
+      | _, _ => "cover malformed"
   | _ => "bad-op"
 
 def main : IO Unit := do
